@@ -7,7 +7,7 @@ from .core import Tree, REPO, AnalysisError
 from .selftest import swap_if_else
 
 ALL_KINDS = ["rename", "swapif", "log", "augassign", "swapeq", "range0", "temp", "swapand", "elsereturn", "noop", "cmpflip", "noteq", "nestif", "guardcont",
-             "nameconst", "lenzero", "ifexp", "tupleassign", "swapstmt", "returnelse", "kwargs", "extract"]
+             "nameconst", "lenzero", "ifexp", "tupleassign", "swapstmt", "returnelse", "kwargs", "extract", "renameparam", "renamemethod", "renameattr"]
 EXTRA_KINDS = []  # hand tool only until silent
 KINDS = list(ALL_KINDS)
 def functions(mod):
@@ -165,10 +165,79 @@ def gen_variants(files=None, kinds=None):
                     if isinstance(n, ast.Call) and _kwargs_able(n, t, m):
                         out.append((m.relpath, "kwargs", fi, k))
                         k += 1
+            if "renamemethod" in KINDS and not fn.name.startswith("__"):
+                out.append((m.relpath, "renamemethod", fi, fn.name))
+            if "renameparam" in KINDS:
+                if not (fn.args.vararg or fn.args.kwarg) and not any(isinstance(x, (ast.FunctionDef, ast.Lambda)) for b in fn.body for x in ast.walk(b)):
+                    for a in fn.args.args:
+                        if a.arg not in ("self", "cls"):
+                            out.append((m.relpath, "renameparam", fi, a.arg))
             if "extract" in KINDS:
                 for k in range(len(_extractable(fn))):
                     out.append((m.relpath, "extract", fi, k))
+    if "renameattr" in KINDS:
+        seen = set()
+        for m in t.modules.values():
+            if files is not None and m.relpath not in files:
+                continue
+            for c in m.classes.values():
+                init = c.methods.get("__init__")
+                if init is None:
+                    continue
+                for n in ast.walk(init.node):
+                    if isinstance(n, ast.Attribute) and isinstance(n.value, ast.Name) and n.value.id == "self" and isinstance(n.ctx, ast.Store) and (c.name, n.attr) not in seen:
+                        seen.add((c.name, n.attr))
+                        out.append((m.relpath, "renameattr", c.name, n.attr))
     return out
+
+
+def apply_treewide(v):
+    """rename a method / function (definition and every reference) or an instance attribute everywhere in the package; returns {relpath: source}"""
+    rel, kind, where, name = v
+    import glob as _g
+    new = name + "_rn"
+    paths = sorted(_g.glob(os.path.join(REPO, "tlexport", "**", "*.py"), recursive=True))
+    mods = {os.path.relpath(p, REPO): ast.parse(open(p).read()) for p in paths}
+    idents = set()
+    for mm in mods.values():
+        for x in ast.walk(mm):
+            if isinstance(x, ast.Name):
+                idents.add(x.id)
+            elif isinstance(x, ast.Attribute):
+                idents.add(x.attr)
+    if new in idents:
+        return None
+    if kind == "renamemethod":
+        # only when the name denotes one definition in the whole package (otherwise a consistent rename is not a single refactoring)
+        defs = [x for mm in mods.values() for x in ast.walk(mm) if isinstance(x, (ast.FunctionDef, ast.ClassDef)) and x.name == name]
+        if len(defs) != 1:
+            return None
+        # names that also denote an attribute of library objects (e.g. `.decrypt`, `.update`, `.build`) cannot be renamed blindly
+        for mm in mods.values():
+            for x in ast.walk(mm):
+                if isinstance(x, ast.keyword) and x.arg == name:
+                    return None
+    changed = {}
+    for r_, mm in mods.items():
+        touched = False
+        for x in ast.walk(mm):
+            if kind == "renamemethod":
+                if isinstance(x, ast.FunctionDef) and x.name == name:
+                    x.name = new; touched = True
+                elif isinstance(x, ast.Name) and x.id == name:
+                    x.id = new; touched = True
+                elif isinstance(x, ast.Attribute) and x.attr == name:
+                    x.attr = new; touched = True
+                elif isinstance(x, ast.alias) and x.name == name:
+                    x.name = new; touched = True
+            else:
+                if isinstance(x, ast.Attribute) and x.attr == name:
+                    x.attr = new; touched = True
+        if touched:
+            changed[r_] = ast.unparse(mm)
+    if not changed:
+        return None
+    return changed, name
 
 
 def _extractable(fn):
@@ -538,6 +607,24 @@ def apply(v):
                     n.args = n.args[:1]
                     break
                 k += 1
+    elif kind == "renameparam":
+        new = arg + "_p"
+        if any(isinstance(x, ast.Name) and x.id == new for x in ast.walk(fn)):
+            return None
+        # callers that pass this parameter by keyword (anywhere in the repo) make the rename a cross-file edit: skip those
+        import glob as _g
+        for path in _g.glob(os.path.join(REPO, "tlexport", "**", "*.py"), recursive=True):
+            for n in ast.walk(ast.parse(open(path).read())):
+                if isinstance(n, ast.Call) and any(k.arg == arg for k in n.keywords):
+                    nm = n.func.id if isinstance(n.func, ast.Name) else (n.func.attr if isinstance(n.func, ast.Attribute) else None)
+                    if nm in (fn.name,) or fn.name == "__init__":
+                        return None
+        for a in fn.args.args:
+            if a.arg == arg:
+                a.arg = new
+        for x in ast.walk(fn):
+            if isinstance(x, ast.Name) and x.id == arg:
+                x.id = new
     elif kind == "extract":
         idx = _extractable(fn)
         if arg >= len(idx):
@@ -600,15 +687,23 @@ _base = {}
 def _work(args):
     v, props = args
     from .check import run_property
-    r = apply(v)
-    if r is None:
-        return (v, None, [])
-    new_src, fname = r
+    if v[1] in ("renamemethod", "renameattr"):
+        r = apply_treewide(v)
+        if r is None:
+            return (v, None, [])
+        overrides, fname = r
+    else:
+        r = apply(v)
+        if r is None:
+            return (v, None, [])
+        new_src, fname = r
+        overrides = {v[0]: new_src}
     try:
-        compile(new_src, v[0], "exec")
+        for rel_, src_ in overrides.items():
+            compile(src_, rel_, "exec")
     except SyntaxError:
         return (v, fname, [])
-    tree = Tree(overrides={v[0]: new_src})
+    tree = Tree(overrides=overrides)
     new = []
     for p in props:
         if p not in _base:
